@@ -1,5 +1,6 @@
 pub mod c12;
 pub mod c13;
+pub mod c14;
 pub mod c16;
 pub mod chain;
 pub mod c19;
